@@ -316,7 +316,21 @@ pub fn gen_project(rng: &mut Rng, o: &ProjectOpts) -> Project {
         g.insert("mode".into(), json!(mode));
     }
     // (directories that share a component name with the inputs at the same depth: `out/a` vs `src/a`)
-    let out_dir = *r_cfg.pick(&["generated", "src/generated", "out/deep/er", ".", "../gen-out", "src", "out/a", "gen/a/b", "out/c"]);
+    // (also: directories that differ from an input directory only in letter case - distinct
+    // directories on the case-sensitive file systems nitrogql runs on)
+    let src_upper = src.to_uppercase();
+    let src_upper_gen = format!("{}/generated", src.to_uppercase());
+    let schema_case_gen = format!("{}/generated", {
+        let mut c = schema_dir.chars();
+        match c.next() {
+            Some(f) => f.to_uppercase().collect::<String>() + c.as_str(),
+            None => String::new(),
+        }
+    });
+    let out_dir: &str = *r_cfg.pick(&[
+        "generated", "src/generated", "out/deep/er", ".", "../gen-out", "src", "out/a", "gen/a/b", "out/c",
+        src_upper.as_str(), src_upper_gen.as_str(), schema_case_gen.as_str(),
+    ]);
     let out_dir = if out_dir == "../gen-out" && depth == 0 { "gen-out" } else { out_dir };
     let sch_name = *r_cfg.pick(&[
         "schema.d.ts",
